@@ -345,6 +345,10 @@ class SBool(Sym):
     def truth(self):
         return self
 
+    def all(self, *a, **k):
+        """(x == y).all() on opaque array-likes: the element-wise comparison reduced - abstracted to the comparison itself"""
+        return self
+
     def __and__(self, o):
         return SBool(z3.And(self.z, _lift_bool(o)))
 
